@@ -83,9 +83,24 @@ def rule_regex(ctx: Ctx):
         return "".join(lits), la_neg, bounds
 
     seen = {}
+    literal_skips = 0
     for alt in alts:
+        # an alternative that is one capturing group matching a whole quoted string ('...' or "...") is the literal-skipper
+        if len(alt) == 1 and str(alt[0][0]) == "SUBPATTERN":
+            inner = list(alt[0][1][3])
+            quoted = inner and str(inner[0][0]) == "BRANCH" and all(
+                len(b) >= 2 and str(b[0][0]) == "LITERAL" and chr(b[0][1]) in "'\"" and str(b[-1][0]) == "LITERAL" and b[-1][1] == b[0][1]
+                for b in (list(x) for x in inner[0][1][1]))
+            if quoted:
+                literal_skips += 1
+                continue
         lit, la, bounds = describe(alt)
         seen[lit] = (la, bounds, alt)
+    # string literals of the expression must survive the rewriting unchanged (`kind == 'a v b'`)
+    first_is_skip = bool(alts) and len(alts[0]) == 1 and str(alts[0][0][0]) == "SUBPATTERN"
+    rep.check(literal_skips == 1 and first_is_skip, "C08.regex", where,
+              "quoted string literals are matched first, as a whole (operator spellings inside them are not rewritten)",
+              f"{mod.rel}::pattern", f"pattern {src!r} has {literal_skips} literal-skipping alternative(s)", pattern=src)
     rep.check(set(seen) == set(table), "C08.regex", where, "the pattern has exactly one alternative per operator spelling in `replacements`",
               f"{mod.rel}::pattern", f"pattern alternatives {sorted(seen)} vs replacements {sorted(table)}", pattern=src)
     for key, text in table.items():
@@ -120,10 +135,23 @@ def rule_regex(ctx: Ctx):
     rep.check(ok, "C08.regex", ro.loc(), "replace_operators substitutes every match of the pattern in the whole expression", ro.key, "return value")
     mf = next((f for f in mod.all_functions if f.parent is ro), None)
     if mf is not None:
+        n_lit_paths = 0
         for p in ctx.paths(mf, inline=None, exc_edges="none"):
             v = xshow(p.value, p.events) if p.kind == "return" else ""
-            rep.check(v == "replacements[match.group(0)]" or v == "replacements[match[0]]", "C08.regex", mf.loc(),
-                      "each match is replaced by the table entry of exactly the matched text", mf.key, f"return {v}")
+            lit_path = any(xshow(b.term, p.events) in ("match.group(1) is None", "match.group(1)", "match[1] is None", "match[1]")
+                           and (b.x["taken"] is ("is None" not in xshow(b.term, p.events))) for b in p.of("branch"))
+            if lit_path:
+                n_lit_paths += 1
+                rep.check(v in ("match.group(0)", "match[0]", "match.group(1)", "match[1]"), "C08.regex", mf.loc(),
+                          "a matched string literal is returned unchanged", mf.key, f"return {v}")
+            else:
+                rep.check(v == "replacements[match.group(0)]" or v == "replacements[match[0]]", "C08.regex", mf.loc(),
+                          "each match is replaced by the table entry of exactly the matched text", mf.key, f"return {v}")
+
+
+        if literal_skips:
+            rep.check(n_lit_paths > 0, "C08.regex", mf.loc(), "the substitution function returns a matched string literal unchanged "
+                      "(it is not an entry of the replacement table)", mf.key, "no path for a matched literal")
 
 
 AST_TO_OP = {"GtE": "ge", "Gt": "gt", "LtE": "le", "Lt": "lt", "Eq": "eq", "NotEq": "ne"}
